@@ -263,6 +263,14 @@ func classifyMapRange(c *core.Ctx, s *mapRangeSite) (idiom string, bad string) {
 				local[inf.Defs[id]] = true
 			}
 		}
+		// parameters of function literals written in the body exist once per call of the literal, hence per entry
+		if fl, ok := n.(*ast.FuncLit); ok && fl.Type.Params != nil {
+			for _, f := range fl.Type.Params.List {
+				for _, id := range f.Names {
+					local[inf.Defs[id]] = true
+				}
+			}
+		}
 		return true
 	})
 	if s.key != nil {
@@ -295,10 +303,8 @@ func classifyMapRange(c *core.Ctx, s *mapRangeSite) (idiom string, bad string) {
 					}
 				}
 			}
-			// x.SetScope() of a per-entry sink
-			if sel, ok := core.Unparen(x.Fun).(*ast.SelectorExpr); ok {
-				return perEntrySinkExpr(inf, sel.X, local, slotOf)
-			}
+			// x.SetScope() of a per-entry sink, a builder chain on one, the result of a package-level constructor
+			return perEntrySinkExpr(c.M, inf, x, local, slotOf)
 		}
 		return false
 	}
@@ -480,7 +486,7 @@ func classifyMapRange(c *core.Ctx, s *mapRangeSite) (idiom string, bad string) {
 	return strings.Join(names, "+"), ""
 }
 
-func perEntrySinkExpr(inf *types.Info, e ast.Expr, local map[types.Object]bool, slotOf map[types.Object]types.Object) bool {
+func perEntrySinkExpr(m *core.Module, inf *types.Info, e ast.Expr, local map[types.Object]bool, slotOf map[types.Object]types.Object) bool {
 	switch x := core.Unparen(e).(type) {
 	case *ast.Ident:
 		o := core.ObjOf(inf, x)
@@ -495,6 +501,32 @@ func perEntrySinkExpr(inf *types.Info, e ast.Expr, local map[types.Object]bool, 
 					return true
 				}
 			}
+		}
+		// the result of a package-level function is a value made for this call (jen.Id(…), a module constructor of
+		// statements), unless the function hands out a package-level variable
+		if cf := core.Callee(inf, x); cf != nil && core.RecvNamed(cf) == nil {
+			if sig, ok := cf.Type().(*types.Signature); ok && sig.Recv() == nil {
+				handsOutGlobal := false
+				if d := m.Decl(cf.Origin()); d != nil && d.Body != nil && m.PkgOf(cf.Origin()) != nil {
+					dinf := m.PkgOf(cf.Origin()).TypesInfo
+					for _, r := range core.ReturnsIn(d.Body) {
+						for _, res := range r.Results {
+							// the result *is* a package-level variable (mentioning one as an argument of a builder is fine)
+							if v, ok := core.ObjOf(dinf, res).(*types.Var); ok && !v.IsField() && v.Pkg() != nil && v.Parent() == v.Pkg().Scope() {
+								handsOutGlobal = true
+							}
+						}
+					}
+				}
+				if !handsOutGlobal {
+					return true
+				}
+			}
+		}
+		// a builder chain f.Func().Id(…).Call() writes to what its base writes to: a sink made in this iteration is
+		// per-entry however long the chain
+		if sel, ok := core.Unparen(x.Fun).(*ast.SelectorExpr); ok && inf.Selections[sel] != nil {
+			return perEntrySinkExpr(m, inf, sel.X, local, slotOf)
 		}
 	}
 	return false
